@@ -154,6 +154,10 @@ def strategy():
                       st.lists(st.one_of(st.sampled_from(['/app/main.py', 'a.py', '/srv/<zq9t>.py', '/x/"zq9u".py', "/y/'zq9v'.py", '/é/中.py', '/w/{zq9w}.py',
                                                           '/usr/lib/python3/os.py', '']),
                                          st.text(alphabet='abc/._<>&"{}zq9', min_size=1, max_size=15)), max_size=6),
+                      # different spellings of one file, names differing by case / suffix / a trailing slash, exact duplicates
+                      st.lists(st.sampled_from(['/srv/app/main.py', '/srv/app//main.py', '/srv/app/./main.py', '/srv/app/x/../main.py', '/srv/app/main.pyc',
+                                                '/SRV/app/main.py', 'pkg/mod.py', './pkg/mod.py', 'pkg/mod.py/', 'x', 'x/', 'X', './x', 'pkg\\mod.py',
+                                                '/srv/app/main.py~', '//srv/app/main.py']), min_size=2, max_size=6),
                       st.lists(st.integers(0, 10 ** 6).map(lambda i: '/proj/mod_%d.py' % i), min_size=50, max_size=200))
     path = st.one_of(st.sampled_from(['/', '/x', '/a/b/c', '/favicon.ico', '//', '/x/', '/<zq9x>', '/clastic_asset', '/é']),
                      st.text(alphabet='ab/.<>9zq%', max_size=10).map(lambda s: '/' + s).filter(lambda p: not p.lstrip('/').startswith('clastic_assets')))
@@ -230,10 +234,18 @@ def body(case, ctx):
         if text not in data and text.replace('\r\n', '\n') not in data.replace('\r\n', '\n'):
             ctx.mismatch('error-text-missing', '%s: the page does not contain the error text %r' % (what, text[:120]), rc)
             return
+        listed = set(t.strip() for _, t in p.own)
         for fn in files or []:
             if fn and fn not in data:
                 ctx.mismatch('file-name-missing', '%s: monitored file %r not on the page' % (what, fn), rc)
                 return
+            # ... as an entry of its own, not merely as part of a longer name ('x' inside 'x/')
+            if fn and fn == fn.strip() and fn.isprintable() and fn not in listed:
+                ctx.mismatch('file-name-not-listed', '%s: monitored file %r is not an entry of the page (entries %r)'
+                             % (what, fn, sorted(listed & set(f.strip() for f in files))[:6]), rc)
+                return
+        if files and len(set(files)) < len(files):
+            ctx.event('files-with-duplicates')
         if standard:
             tm = expected_type_msg(text.replace('\r\n', '\n'))
             if tm:
